@@ -56,6 +56,22 @@ def run(ctx):
               "set", "set x", "set x to", "set x to matches", "set x to pattern", "set x to transform", "set x to transform begin", "replace all 'a' with", "find", "find skip", "find skip 1 take",
               "", " ", "--", "--(", "'", "\"", "@", "@/", "\x00", "find all 'a'\x00 garbage", "find all \"\\", "find all '\\x", "find all '\\x4"]:
         add(s, "named in the property")
+    # process expressions cut short by a statement keyword: the expression parser runs on a token slice that ends where the statement ends
+    # (no EOF token behind it), so every look-ahead must stop there
+    etoks = ["-", "+", "*", "/", "%", "==", "!=", "<", ">", "<=", ">=", "and", "or", "not", "head", "tail", "(", ")", "1", "x", "'s'", "true", "match"]
+    stops = ["end", "then", "set", "if", "else", "debug", "return", "loop", "break", "continue"]
+    frames = ["set f to transform return %s %s end find all 'a'", "set f to transform if %s %s return 'a' end end find all 'a'", "set p to pattern 'a' begin return %s %s end find all p",
+              "set f to transform set v to %s %s return v end find all 'a'", "set f to transform debug %s %s return 'a' end find all 'a'", "set f to transform loop if %s %s break end end find all 'a'"]
+    frag = [[a] for a in etoks] + [[a, b] for a in etoks for b in etoks]
+    if quick:
+        frag = [[a] for a in etoks] + [[a, b] for a in etoks for b in ("-", "not", "(", "1", "==")] + [[b, a] for a in etoks for b in ("1", "x", "(")] + rng.sample(frag, 60)
+    for fr in frag:
+        st = rng.choice(stops)
+        fm = rng.choice(frames)
+        add(fm % (" ".join(fr), st if st != "end" else ""), "expression fragment")
+        if fr[-1] == "-" or len(fr) == 1:
+            for st2 in stops:
+                add(frames[0] % (" ".join(fr), st2 if st2 != "end" else ""), "expression fragment")
     # deep nesting: the parser recursion is bounded by the token count
     for n in (50, 400) if quick else (50, 400, 3000):
         add("find all " + "(" * n + "'a'" + ")" * n, "deep nesting")
@@ -99,7 +115,7 @@ def run(ctx):
     ctx.coverage["input_kinds"] = {l: labs.count(l) for l in sorted(set(labs))}
     ctx.coverage["k25_reproduces"] = k25
     ctx.coverage["rule"] = ("valid programs (repository tests + docs corpus, generated) x {every prefix, one-token deletion/duplication/swap}, token soups, random bytes incl. NUL and invalid UTF-8, "
-                            "regex literals with arbitrary bodies, nesting depth up to 3000: Compile must return a program xor a printable error without panic/hang/2GB; token stream and syntax tree "
+                            "regex literals with arbitrary bodies, process expressions cut short by every statement keyword, nesting depth up to 3000: Compile must return a program xor a printable error without panic/hang/2GB; token stream and syntax tree "
                             "(or error class) compared with the model on every in-scope source; non-trivial = distinct rejected sources")
     ctx.sample({"source": srcs[0][:80], "kind": labs[0]})
     ctx.sample({"source": srcs[-1][:80], "kind": labs[-1]})
